@@ -304,6 +304,14 @@ func (c *FnCtx) assignTo(st *State, l ast.Expr, v Term, pos token.Pos) {
 		}
 		// struct value: rebuild and assign to the base lvalue
 		if base.Sort.Kind != KStruct {
+			if c.lenient() {
+				// a field of an opaque (dependency) struct value held in a local: the value becomes unknown
+				if base.T != nil {
+					c.e.trusted["lenient: field "+f.Name()+" of an opaque struct value assigned in "+shortFn(c.fi.Key)+" (the struct value becomes unknown)"] = true
+					c.assignTo(st, y.X, c.fresh(st, "opaque", base.T), pos)
+					return
+				}
+			}
 			panic(unsup("field assignment on opaque struct"))
 		}
 		var parts []string
